@@ -229,11 +229,16 @@ CLAIMED = {
             "TLA+ model invariants (own result satisfies the checker criterion) + recorded end-to-end runs judged by TLC"),
     "C19": ("5/C19, Appendix D",
             "TLC checks the action property OperandsUnchanged of Session.tla (heap cells shared vs copied, hidden "
-            "generators) over all histories of <= 3 (4) constructions; the pinned variant of the model violates it.  "
-            "(G) every behaviour TLC enumerates is replayed and every existing object projected before/after each call. "
+            "generators) over all histories of <= 3 (4) constructions; the pinned variant of the model violates it; "
+            "DfaSession.tla does the same for the DFA API at container level (complement / make_total / "
+            "make_total_in_place / union / remove_unreachable / no_extend on every partial 2-state DFA; its pinned mode "
+            "reproduces the dfa_complement sharing defect that was fixed).  "
+            "(G) every behaviour TLC enumerates from both models is replayed and every existing object projected "
+            "before/after each call; the final store is compared with the model's.  "
             "(J) 63 pure operations on seeded arguments are executed in 3 (12) processes with different "
             "PYTHONHASHSEED, different call orders (histories, incl. grammars that differ only in their start variable "
-            "meeting in one process) and logging on/off, twice in a row; TLC judges: arguments unchanged, same result "
+            "meeting in one process) and logging on/off, twice in a row, then the library's in-place operations are applied "
+            "to both results; TLC judges: arguments unchanged, same result "
             "when called again, and - on events grouping the runs of one case - identical values / exactly equal "
             "languages (FA, regexp) / equal languages up to 3 (grammars, PDAs) elsewhere.",
             "trusted: TLC, abstraction.py (the projection defines 'observable content'), the reference semantics; "
